@@ -78,7 +78,10 @@ struct E {
 
 impl E {
     fn any() -> E {
-        let idb: [u8; 5] = kani::any();
+        // (arrays are drawn through integers: no loops, the unwind bound stays small)
+        let idw: u64 = kani::any();
+        let w = idw.to_le_bytes();
+        let idb: [u8; 5] = [w[0], w[1], w[2], w[3], w[4]];
         let idl: usize = kani::any();
         kani::assume(idl >= 4 && idl <= 5);
         let seq: u32 = kani::any();
@@ -90,7 +93,8 @@ impl E {
         let has_tm: bool = kani::any();
         let tm: u16 = kani::any();
         kani::assume(st != S_REMOVAL || has_tm);
-        let tok: [u8; 16] = kani::any();
+        let tokw: u128 = kani::any();
+        let tok: [u8; 16] = tokw.to_le_bytes();
         E {
             idb,
             idl,
@@ -237,8 +241,28 @@ fn stub_remove(_this: &mut LocalIdMap, local_id: &connection::LocalId) -> Option
 }
 
 #[cfg(kani)]
+static mut UNREGISTER_CALLS: usize = 0;
+#[cfg(kani)]
+static mut UNREGISTER_AT: Option<Timestamp> = None;
+#[cfg(kani)]
+static mut UNREGISTER_SAW_RPT: u32 = 0;
+
+/// recording stub for the private LocalIdRegistry::unregister_expired_ids (SmallVec::retain with a
+/// symbolic set of deletions is out of reach together with the rest of on_timeout)
+#[cfg(kani)]
+fn stub_unregister_expired_ids(this: &mut LocalIdRegistry, timestamp: Timestamp) {
+    unsafe {
+        UNREGISTER_CALLS += 1;
+        UNREGISTER_AT = Some(timestamp);
+        UNREGISTER_SAW_RPT = this.retire_prior_to;
+    }
+}
+
+#[cfg(kani)]
 fn reset_recordings() {
     unsafe {
+        UNREGISTER_CALLS = 0;
+        UNREGISTER_AT = None;
         MAP_INSERTS = 0;
         MAP_INSERTED = None;
         MAP_REMOVES = 0;
@@ -247,6 +271,29 @@ fn reset_recordings() {
 }
 
 // ---------------------------------------------------------------- registry builder
+// Under Kani the endpoint-wide mapper state cannot be constructed at all (ConnectionIdMapper::new
+// alone: CBMC out of memory at 16 GB, measured twice). Every access to it made by LocalIdRegistry is
+// one of the two stubbed LocalIdMap methods, which never look at `self`: the state behind the REAL
+// Arc<Mutex<..>> is therefore left uninitialised under Kani. Natively the real mapper is built.
+#[cfg(kani)]
+fn new_registry(rotate: bool) -> LocalIdRegistry {
+    let state = Arc::new(Mutex::new(core::mem::MaybeUninit::<ConnectionIdMapperState>::uninit()));
+    let state: Arc<Mutex<ConnectionIdMapperState>> =
+        unsafe { Arc::from_raw(Arc::into_raw(state) as *const Mutex<ConnectionIdMapperState>) };
+    let iid = InternalConnectionIdGenerator::new().generate_id();
+    let hs = connection::LocalId::try_from_bytes(&[0xAA; 8]).unwrap();
+    LocalIdRegistry::new(iid, state, &hs, None, stateless_reset::Token::from([0xAB; 16]), rotate)
+}
+#[cfg(not(kani))]
+fn new_registry(rotate: bool) -> LocalIdRegistry {
+    let mut rng = random::testing::Generator(123);
+    let mut mapper = ConnectionIdMapper::new(&mut rng, endpoint::Type::Server);
+    let iid = InternalConnectionIdGenerator::new().generate_id();
+    // placeholder handshake ID (8 bytes: cannot collide with the 4..5 byte symbolic IDs)
+    let hs = connection::LocalId::try_from_bytes(&[0xAA; 8]).unwrap();
+    mapper.create_local_id_registry(iid, &hs, None, stateless_reset::Token::from([0xAB; 16]), rotate)
+}
+
 fn any_registry(n: usize) -> (LocalIdRegistry, Pre) {
     let first = E::any();
     let mut es = [first; MAXN];
@@ -263,13 +310,7 @@ fn any_registry(n: usize) -> (LocalIdRegistry, Pre) {
     let pre = Pre { n, e: es, next, rpt, limit };
     kani::assume(pre.valid());
 
-    let mut rng = random::testing::Generator(123);
-    let mut mapper = ConnectionIdMapper::new(&mut rng, endpoint::Type::Server);
-    let iid = InternalConnectionIdGenerator::new().generate_id();
-    // placeholder handshake ID (8 bytes: cannot collide with the 4..5 byte symbolic IDs)
-    let hs = connection::LocalId::try_from_bytes(&[0xAA; 8]).unwrap();
-    let mut reg = mapper.create_local_id_registry(iid, &hs, None, stateless_reset::Token::from([0xAB; 16]), rotate);
-    core::mem::forget(mapper);
+    let mut reg = new_registry(rotate);
 
     reg.registered_ids[0] = pre.e[0].info();
     let mut i = 1;
@@ -370,7 +411,8 @@ fn timeout_body(n: usize) {
     while i < n {
         let e = &pre.e[i];
         let ready = fired && e.st <= S_ACTIVE && matches!(e.rt, Some(t) if elapsed(t));
-        let expired = fired && e.st >= S_RETIRING && matches!(e.tm, Some(t) if elapsed(t));
+        // (under Kani the removal of expired IDs is cut away by the stub: see C13-O2c for it)
+        let expired = !cfg!(kani) && fired && e.st >= S_RETIRING && matches!(e.tm, Some(t) if elapsed(t));
         if expired {
             // unregistered from the endpoint-wide map
             #[cfg(kani)]
@@ -407,7 +449,15 @@ fn timeout_body(n: usize) {
     }
     assert!(reg.registered_ids.len() == k);
     #[cfg(kani)]
-    assert!(unsafe { MAP_REMOVES } == removed);
+    unsafe {
+        assert!(MAP_REMOVES == removed);
+        // expired IDs are looked for exactly when the timer fired, at the current time, after the
+        // retirements were applied
+        assert!(UNREGISTER_CALLS == if fired { 1 } else { 0 });
+        if fired {
+            assert!(UNREGISTER_AT == Some(now) && UNREGISTER_SAW_RPT == want_rpt);
+        }
+    }
     // retire_prior_to moves exactly to one past the largest ID retired now: never beyond an issued ID
     assert!(reg.retire_prior_to == want_rpt);
     assert!(reg.next_sequence_number == pre.next);
@@ -422,11 +472,24 @@ fn timeout_body(n: usize) {
 }
 
 #[cfg_attr(kani, kani::proof)]
-#[cfg_attr(kani, kani::unwind(18))]
+#[cfg_attr(kani, kani::unwind(7))]
 #[cfg_attr(kani, kani::stub(LocalIdMap::try_insert, stub_try_insert))]
 #[cfg_attr(kani, kani::stub(LocalIdMap::remove, stub_remove))]
+#[cfg_attr(kani, kani::stub(LocalIdRegistry::unregister_expired_ids, stub_unregister_expired_ids))]
 fn verif_local_id_timeout_n3() {
     timeout_body(3);
+}
+
+
+// ---- TEMP PROBES
+#[cfg_attr(kani, kani::proof)]
+#[cfg_attr(kani, kani::unwind(7))]
+#[cfg_attr(kani, kani::stub(LocalIdMap::try_insert, stub_try_insert))]
+#[cfg_attr(kani, kani::stub(LocalIdMap::remove, stub_remove))]
+fn verif_probe_registry_new() {
+    let reg = new_registry(true);
+    kani::cover!(reg.registered_ids.len() == 1, "built");
+    core::mem::forget(reg);
 }
 
 // ---- generated by tools/fixup.py: native replay entry ----
@@ -435,5 +498,6 @@ fn verif_local_id_timeout_n3() {
 fn verif_replay() {
     kani::replay(&[
         ("verif_local_id_timeout_n3", verif_local_id_timeout_n3),
+        ("verif_probe_registry_new", verif_probe_registry_new),
     ]);
 }
